@@ -12,6 +12,7 @@ CONSTANTS
   Vias = {"ci", "dbc"}
   MapKinds = {"none", "foreign"}
   URs = {FALSE, TRUE}
+  NoAutos = {FALSE}
   Faults = {0, 1}
   DelFaults = {0, 1}
   MaxOps = 5
